@@ -727,6 +727,45 @@ def string_constants(ctx):
             ctx.violation("consts", f"string-constant-rejected:{type(e).__name__}", {"text": text, "error": lib.exc_sig(e)})
 
 
+def loads_with_differing_options(ctx):
+    """Unrelated declarations given to one cstruct object in several load() calls, each call with its own `align` /
+    `compiled` options (the same keyword with other values, a keyword left out, given positionally as a dict): every
+    declaration comes out as it does when it is loaded alone with its options, in either order."""
+    blocks = [("hdr", "struct hdr { uint8 kind; uint32 len; uint16 crc; };"),
+              ("rec", "struct rec { uint16 id; uint64 stamp; uint8 flags; };\ntypedef rec rec_t;"),
+              ("pt", "typedef struct { uint8 tag; uint32 x; uint32 y; } pt;")]
+    data = bytes(range(1, 40))
+
+    def facts(cs, name):
+        T = getattr(cs, name)
+        o = T(data)
+        return (len(T), [f.offset for f in T.__fields__], bool(T.__align__), bool(T.__compiled__), lib.stable_repr(o), o.dumps().hex())
+
+    opts = [dict(align=True), dict(align=False), dict(compiled=True), dict(compiled=False), dict(align=True, compiled=False),
+            dict(align=False, compiled=True), dict()]
+    import itertools
+
+    for (na, ta), (nb, tb) in itertools.permutations(blocks, 2):
+        for oa, ob in itertools.product(opts, opts):
+            ctx.evaluation(("load-options", na, nb, repr(oa), repr(ob)))
+            ctx.cell("loads-with-differing-options")
+            det = {"first": ta, "second": tb, "first_options": oa, "second_options": ob, "workload": "load-options"}
+            try:
+                alone_a, alone_b = facts(lib.cstruct().load(ta, **oa), na), facts(lib.cstruct().load(tb, **ob), nb)
+                cs = lib.cstruct()
+                cs.load(ta, **oa)
+                cs.load(tb, **ob)
+                got_a, got_b = facts(cs, na), facts(cs, nb)
+            except Exception as e:  # noqa: BLE001
+                ctx.violation("load-options", f"loads-with-options-raise:{type(e).__name__}", dict(det, error=lib.exc_sig(e)))
+                continue
+            if got_a != alone_a or got_b != alone_b:
+                ctx.violation("load-options", "declaration-depends-on-the-options-of-another-load-call",
+                              dict(det, got=repr((got_a[:4], got_b[:4])), want=repr((alone_a[:4], alone_b[:4]))))
+            else:
+                ctx.event("load_options_checked")
+
+
 def run(ctx):
     if ctx.shard == 0:
         aliases(ctx, ctx.rng("aliases"))
@@ -735,6 +774,8 @@ def run(ctx):
         enum_line_ends(ctx)
     if ctx.shard == 1:
         keyword_like_fields(ctx)
+    if ctx.shard == 4:
+        loads_with_differing_options(ctx)
     if ctx.shard == 3:
         tagged_typedef_declarators(ctx)
         conflicting_structure_redeclarations(ctx)
@@ -762,6 +803,7 @@ def replay(ctx, detail):
         shared_names(ctx, ctx.rng("shared-names"), 8)
         tagged_typedef_declarators(ctx)
         conflicting_structure_redeclarations(ctx)
+        loads_with_differing_options(ctx)
         return
     try:
         cs = lib.cstruct(endian=cfgd["endian"])
